@@ -158,6 +158,10 @@ var verif_ghost struct {
 	uNewLock  hash.Hash // the lock of the contents it was given
 	jCommitCalled  bool // journalWriter.commitRootHash was invoked
 	jBackingCalled bool // the backing manifest was updated (flushToBackingManifest)
+
+	// batched table lookups: the index entry fetched is the one whose suffix just matched
+	tMatched  bool
+	tMatchIdx uint32
 }
 
 // ---- stubs carrying the assumed contracts of external functions (see the extern blocks in verif_contracts.go)
